@@ -51,9 +51,9 @@ def probes(rnd, n_each, start_id):
         s["links"] = [d]
         out.append(s)
     for vt in ("PRV", "PSV", "FCV", "TCV"):       # valves in every status
-        for _ in range(n_each):
+        for k in range(n_each):
             s = base(sid, rnd.choice(["default", "piecewise"])); sid += 1
-            s["patterns"]["SW"] = [0.0, 0.01, 0.1, 0.3, 0.6, 1.0, 1.5, 2.0, -0.3, 0.05, 0.8]
+            s["patterns"]["SW"] = [0.0, 0.01, 0.1, 0.3, 0.6, 1.0, 1.5, 2.0, -0.3 if vt == "TCV" else 0.2, 0.05, 0.8]
             s["nodes"] = [res("R0", 60.0), junction("J1", 5.0, []), junction("J0", 2.5, [{"base": 0.01, "pat": "SW"}]),
                           junction("J2", 0.0, [{"base": 0.002, "pat": ""}])]
             setting = {"PRV": netgen.rgrid(rnd, 10, 50, 2.5), "PSV": netgen.rgrid(rnd, 30, 60, 2.5),
@@ -64,11 +64,14 @@ def probes(rnd, n_each, start_id):
             s["links"] = [{"name": "P0", "type": "pipe", "a": "R0", "b": "J1", "len": up["len"], "diam": up["diam"],
                            "rough": 100.0, "minor": 0.0, "cv": False, "init": 1},
                           {"name": "V0", "type": vt, "a": "J1", "b": "J0", "diam": rnd.choice([0.15, 0.2, 0.3]),
-                           "minor": rnd.choice([0.0, 2.0, 8.0]), "setting": setting, "init": rnd.choice([2, 2, 1, 0])},
+                           "minor": rnd.choice([0.0, 2.0, 8.0]), "setting": setting,
+                           "init": 2 if k < 4 else rnd.choice([2, 2, 1, 0])},
                           {"name": "P2", "type": "pipe", "a": "J0", "b": "J2", "len": 200.0, "diam": 0.2, "rough": 100.0,
                            "minor": 0.0, "cv": False, "init": 1}]
-            if rnd.random() < 0.5:                # a downstream source lets the valve see reverse conditions
-                s["nodes"].append(res("R1", netgen.rgrid(rnd, 20, 70, 5)))
+            # a downstream source lets the valve throttle (a PSV cannot be active when it is the only path to a
+            # fixed demand) and lets it see reverse conditions
+            if (vt == "PSV" and k < 4) or (k >= 4 and rnd.random() < 0.5):
+                s["nodes"].append(res("R1", netgen.rgrid(rnd, 20, 40, 5) if k < 4 else netgen.rgrid(rnd, 20, 70, 5)))
                 s["links"].append({"name": "P3", "type": "pipe", "a": "R1", "b": "J2", "len": 600.0, "diam": 0.2,
                                    "rough": 100.0, "minor": 0.0, "cv": False, "init": 1})
             out.append(s)
